@@ -162,8 +162,4 @@ def replay(w):
             if v["witness"] == w:
                 return core.Violation(v["clause"], v["sig"], w, v["detail"])
         return None
-    try:
-        check_one(specs.load(w["spec"]), w["opts"], core.Acc(), w.get("tag", ""))
-    except core.Violation as v:
-        return v
-    return None
+    return shape.replay(w, check_one)
